@@ -110,7 +110,9 @@ class TriangularLinearOperator(LinearOperator, _TriangularLinearOperatorBase):
     def _mul_constant(
         self: Float[LinearOperator, "*batch M N"], other: Union[float, torch.Tensor]
     ) -> Float[LinearOperator, "*batch M N"]:
-        return self.__class__(self._tensor * other.unsqueeze(-1), upper=self.upper)
+        # `other` holds one constant per batch member (shape *batch) or a single constant (0-d):
+        # it needs BOTH matrix dimensions to broadcast against the stored (*batch, M, N) factor
+        return self.__class__(self._tensor * other.unsqueeze(-1).unsqueeze(-1), upper=self.upper)
 
     def _root_decomposition(
         self: Float[LinearOperator, "... N N"]
